@@ -432,7 +432,7 @@ def stream_arith(ctx):
             kb2.sort(key=lambda k: k == ())
             cases.append((op, rand_pt(of, rng, 1, ka2, 0.0), rand_pt(of, rng, 1, kb2, 0.0), None))
     st.exhaustive = False
-    nrand = budget(ctx.tier, 260, 5000)
+    nrand = budget(ctx.tier, 600, 6000)
     if ctx.drift:
         nrand = max(nrand, 1500)
     for i in range(nrand):
@@ -481,7 +481,7 @@ def stream_iter(ctx):
                 'distinct = distinct tensors')
     orc = Oracle(ctx)
     rng = rng_for(ctx.seed, 'c08-iter')
-    N = budget(ctx.tier, 120, 2500)
+    N = budget(ctx.tier, 300, 3000)
     if ctx.drift:
         N = max(N, 800)
     objs = []
@@ -620,7 +620,7 @@ def stream_conv(ctx):
                 'get_fermion_operator(convert(A)) == normal_ordered(A); distinct = distinct inputs')
     orc = Oracle(ctx)
     rng = rng_for(ctx.seed, 'c08-conv')
-    N = budget(ctx.tier, 150, 2500)
+    N = budget(ctx.tier, 300, 3000)
     if ctx.drift:
         N = max(N, 800)
     normal_ordered = of.transforms.normal_ordered
@@ -974,7 +974,7 @@ def stream_maj(ctx):
                 'round trips; distinct = distinct inputs')
     orc = Oracle(ctx)
     rng = rng_for(ctx.seed, 'c08-maj')
-    N = budget(ctx.tier, 150, 2500)
+    N = budget(ctx.tier, 300, 3000)
     if ctx.drift:
         N = max(N, 800)
 
@@ -1191,7 +1191,7 @@ def stream_rot(ctx):
                 'tensors are invariant (eigvalsh of the Spec dense matrices at 1e-9, class c); distinct = distinct (tensor, R)')
     orc = Oracle(ctx)
     rng = rng_for(ctx.seed, 'c08-rot')
-    N = budget(ctx.tier, 140, 2500)
+    N = budget(ctx.tier, 300, 3000)
     if ctx.drift:
         N = max(N, 800)
     KEYS = [(0,), (1,), (1, 0), (0, 1), (1, 1), (0, 0), (1, 0, 1), (0, 1, 1), (1, 1, 0, 0), (0, 0, 1, 1), (1, 0, 0, 1),
@@ -1236,7 +1236,7 @@ def stream_rot(ctx):
             st.float_comparisons += 1
             if T2.shape != mf.shape or numpy.max(numpy.abs(T2 - mf)) > 1e-9:
                 st.disagree('general_basis_change (1e-9)', case, enc_tensor(T2), m)
-        if cls in ('a', 'b') and nt <= 3:
+        if cls in ('a', 'b') and (nt <= 3 or (nt == 4 and len(key) <= 2)):
             # substitution oracle: Σ_idx T[idx] Π_k (rotated ladder operator idx_k, key_k)
             Rbig = numpy.kron(R, numpy.eye(2)) if nt == 2 * n else R
             jRbig = enc_mat(Rbig)
